@@ -10,7 +10,7 @@ import (
 // C10: open-path offsetting (strokes).
 func cmdC10(r *RNG, n int, e *Emitter, args []string) {
 	for i := 0; i < n; i++ {
-		takeDiscards()
+		clearEvents()
 		S := []float64{40, 100, 400}[r.Intn(3)]
 		np := []int{1, 2, 2, 3, 4, 5, 6}[r.Intn(7)]
 		line := make(clip.Path64, 0, np)
